@@ -14,6 +14,7 @@ P = {
     'design_ref': 'DESIGN.md section 5 (C02/C05/C16), section 6 (K4, K5, K6, K9)',
     'drivers': [
         {'name': 'evmexec', 'n': {'quick': 500, 'thorough': 20000}, 'args': {'prop': 'C16'}, 'batch': 5000},
+        {'name': 'evmquery', 'n': {'quick': 150, 'thorough': 5000}, 'batch': 5000},
     ],
     'coq_header': 'From HV Require Import Evm.ExecModel.\nFrom Coq Require Import ZArith NArith List.\nImport ListNotations.',
     'lists': {'cases': {'type': 'ecase * list Z * eobs', 'check': 'mismatches', 'shard': 50}},
@@ -26,6 +27,6 @@ P = {
     'trusted_base': _COMMON_TB,
     'assumptions': ['gas price 0, so no fee enters the balance equations', 'one validator, no slashing (tokens = shares)'],
     'level_text': 'Coq theorem: for every method, argument and state the Cosmos-side effect and success/failure of an owner call equal the native message (before the final StateDB commit); refutation witness K6 for the whole-transaction statement. Every run executes, on forks of the same state, the precompile transaction and the native message through the real message router and diffs balances, delegations, unbondings, rewards, withdraw addresses, grants; the model is compared with the implementation on the same cases',
-    'level_note': 'partial: the read-only query methods and ICS-20/bank precompiles are not exercised by this driver; interpreter, SDK keepers modelled not verified',
+    'level_note': 'partial: interpreter and SDK keepers are modelled not verified; the read-only methods (staking delegation / unbondingDelegation / validator, bank balances / totalSupply / supplyOf) are compared with keeper state by the evmquery driver (no model: they are projections); ICS-20 is not exercised',
     'technique': 'Coq proof over a StateDB/precompile model + differential correspondence on generated EVM call trees',
 }
